@@ -120,6 +120,9 @@ def gen(rng):
     elif cls == "grid_ends":
         c["ops"].append({"op": "interp", "method": rng.choice(["linear", "constant"]), "grid": ["1/2", "1/4"], "bad_ends": True,
                          "force": True})
+        if rng.random() < 0.3:
+            # end points that miss the series' by one unit in the last place (a range recomputed by the caller)
+            c["ops"][-1]["bad_ends"] = "ulp"
         if rng.random() < 0.5:
             # keyword arguments that Weaver.interpolate passes through to the interpolation routine
             c["ops"][-1]["kwargs"] = rng.choice([{"period": 24.0}, {"period": 1.0}, {"left": 0.0}, {"right": 0.0},
@@ -136,6 +139,7 @@ def gen(rng):
                     {"op": "interp", "method": "linear", "grid": ["1/2"], "ref_ends": True, "force": True}]
     elif cls == "dataset":
         c["dataset"] = rng.choice(["no-such-dataset", "sandvine_nothing", "ams-ix_hourly", ""])
+        c["bad_home"] = rng.random() < 0.4
         c["ops"] = []
     return c
 
@@ -153,11 +157,27 @@ def run_impl(c):
             op["lk"] = op["rk"] = "raw"
     if c.get("dataset") is not None:
         from traffic_weaver.datasets import load_dataset
+        import os
+        import tempfile
+        old_home = os.environ.get("TRAFFIC_WEAVER_DATA")
+        blocker = None
+        if c.get("bad_home"):
+            # a data home that cannot be created (a path below a regular file): an unknown name is refused all the same
+            fd, blocker = tempfile.mkstemp(prefix="twv-c20-")
+            os.close(fd)
+            os.environ["TRAFFIC_WEAVER_DATA"] = os.path.join(blocker, "cache")
         try:
             load_dataset(c["dataset"])
             io = {"steps": [{"ok": True}], "lines": []}
         except Exception as e:  # noqa
             io = {"steps": [{"err": err_kind(e)}], "lines": []}
+        finally:
+            if blocker:
+                os.unlink(blocker)
+                if old_home is None:
+                    os.environ.pop("TRAFFIC_WEAVER_DATA", None)
+                else:
+                    os.environ["TRAFFIC_WEAVER_DATA"] = old_home
         c["_lines"] = [f"resolve {c['dataset'] or '_'} load_sandvine_audio,fetch_mix_it_milan_daily"]
         return io
     for op in c["ops"]:
